@@ -25,7 +25,12 @@ pub enum Op {
     Tcorb(u8),
     /// CPU clears the flags selected by the mask (bits 7-5) and writes `low` to the other bits
     ClearFlags(u8, u8),
+    /// CPU writes a register of *another* 8-bit timer channel (1, 2, 3): nothing of channel 0 may change
+    Other(u8, u8),
 }
+
+/// registers of the 8-bit timer channels 1-3 (same block, interleaved with channel 0's)
+pub const OTHER_REGS: [u32; 15] = [0xffff81, 0xffff83, 0xffff85, 0xffff87, 0xffff89, 0xffff90, 0xffff91, 0xffff92, 0xffff93, 0xffff94, 0xffff95, 0xffff96, 0xffff97, 0xffff98, 0xffff99];
 
 #[derive(Clone, Debug, PartialEq, Eq)]
 pub struct Obs {
@@ -99,6 +104,9 @@ pub fn cleanup(emu: &mut Emu) {
     for a in [TCR, TCSR, TCORA, TCORB, TCNT] {
         raw_set(&mut emu.cpu.bus, a, 0);
     }
+    for a in OTHER_REGS {
+        raw_set(&mut emu.cpu.bus, a, baseline_byte(a));
+    }
     for i in 0..8u32 {
         raw_set(&mut emu.cpu.bus, SCRATCH_SP - 4 + i, baseline_byte(SCRATCH_SP - 4 + i));
     }
@@ -126,6 +134,7 @@ pub fn execute(emu: &mut Emu, ops: &[Op]) -> Result<Vec<Obs>, String> {
                 let cur = emu.cpu.bus.read(TCSR).map_err(|e| e.to_string())?;
                 emu.cpu.bus.write(TCSR, (cur & 0xe0 & !mask) | (low & 0x1f)).map_err(|e| e.to_string())
             }
+            Op::Other(i, v) => emu.cpu.bus.write(OTHER_REGS[i as usize % OTHER_REGS.len()], v).map_err(|e| e.to_string()),
         };
         if let Err(e) = r {
             return Err(format!("op {} {:?} failed: {}", i, op, e));
@@ -316,6 +325,7 @@ impl Model {
                 self.tcsr = (self.tcsr & 0xe0 & !mask) | (low & 0x1f);
                 self.expect_regs(op, obs)
             }
+            Op::Other(..) => self.expect_regs(op, obs),
         }
     }
     fn expect_regs(&mut self, op: &Op, obs: &Obs) -> Result<(), String> {
@@ -439,6 +449,11 @@ fn build_history(e: &mut Ent) -> Vec<Op> {
                 tb = v;
                 ops.push(Op::Tcorb(v));
             }
+            14 if e.chance(1, 2) => {
+                // another channel's register: a clock selection / compare value / counter of channel 1-3
+                let v = if e.chance(1, 2) { e.u8() } else { e.pick(&[0x01u8, 0x02, 0x03, 0x0b, 0x41, 0xff, 0x00]) };
+                ops.push(Op::Other(e.below(OTHER_REGS.len() as u32) as u8, v))
+            }
             _ => ops.push(Op::ClearFlags(e.u8() & 0xe0, e.u8())),
         }
     }
@@ -486,7 +501,7 @@ fn resplit(ops: &[Op], e: &mut Ent) -> Vec<Op> {
 fn ops_json(ops: &[Op]) -> Value {
     json!({"kind": "timer-history", "ops": ops.iter().map(|o| match *o {
         Op::Elapse(n) => json!(["elapse", n]), Op::Tcr(v) => json!(["tcr", v]), Op::Tcnt(v) => json!(["tcnt", v]),
-        Op::Tcora(v) => json!(["tcora", v]), Op::Tcorb(v) => json!(["tcorb", v]), Op::ClearFlags(m, l) => json!(["clear", m, l]) }).collect::<Vec<_>>()})
+        Op::Tcora(v) => json!(["tcora", v]), Op::Tcorb(v) => json!(["tcorb", v]), Op::ClearFlags(m, l) => json!(["clear", m, l]), Op::Other(i, v) => json!(["other", i, v]) }).collect::<Vec<_>>()})
 }
 fn ops_from_json(v: &Value) -> Option<Vec<Op>> {
     Some(
@@ -502,6 +517,7 @@ fn ops_from_json(v: &Value) -> Option<Vec<Op>> {
                     "tcnt" => Op::Tcnt(a),
                     "tcora" => Op::Tcora(a),
                     "tcorb" => Op::Tcorb(a),
+                    "other" => Op::Other(a, o.get(2)?.as_u64()? as u8),
                     _ => Op::ClearFlags(a, o.get(2)?.as_u64()? as u8),
                 })
             })
